@@ -10,6 +10,7 @@ import Oryx.Base.Text
 import Oryx.Spec.Ws
 import Oryx.Model.WsRead
 import Oryx.Model.WsWrite
+import Oryx.Model.WsConc
 namespace Oracle.Ws
 open Oryx Oryx.Spec.Ws
 
@@ -208,8 +209,26 @@ def handleW (op : String) (args : List String) : Option String :=
     pure s!"{toHex (WsWrite.maskBytes key pos d)} {toHex (xorMask key pos d)} {toHex (WsRead.maskBytes key pos d)}"
   | _, _ => none
 
+/-- `wsconc.accepts WIRE SENDERS PARTIALS`: SENDERS = `|`-separated, each `a:` or `p:` (all / prefix)
+followed by comma-separated frame bytes (`_` for none); PARTIALS comma-separated or `_`. -/
+def parseSender (s : String) : Option WsConc.Sender := do
+  let all ← if s.startsWith "a;" then some true else if s.startsWith "p;" then some false else none
+  let body := (s.drop 2).toString
+  let fs ← if body == "_" then some [] else (body.splitOn ",").mapM parseBytes
+  pure ⟨fs, all⟩
+
+def handleConc (op : String) (args : List String) : Option String :=
+  match op, args with
+  | "wsconc.accepts", [wire, senders, partials] => do
+    let w ← parseBytes wire
+    let ss ← if senders == "_" then some [] else (senders.splitOn "|").mapM parseSender
+    let ps ← if partials == "_" then some [] else (partials.splitOn ",").mapM parseBytes
+    pure (b01 (WsConc.accepts w ss ps))
+  | _, _ => none
+
 def handle (op : String) (args : List String) : Option String :=
   match op, args with
+  | "wsconc.accepts", _ => handleConc op args
   | "ws.write", _ => handleW op args
   | "ws.trunc", _ => handleW op args
   | "ws.mask", _ => handleW op args
